@@ -282,7 +282,7 @@ pub fn run(args: &Args) -> Report {
                         let mut rec = crate::hist::Recorder::new(t as u32);
                         ready.fetch_add(1, SeqCst);
                         while !go.load(SeqCst) {
-                            std::hint::spin_loop();
+                            crate::util::pause();
                             #[cfg(miri)]
                             std::thread::yield_now();
                         }
